@@ -31,6 +31,24 @@ def check(ctx):
     ctx.explanation = EXPLANATION
     ctx.not_decided = NOT_DECIDED
     prog = ctx.prog
+    # where does the despawn signal get sent? It must be the Drop of the payload *inside* the Arc (runs exactly once, on
+    # whichever thread drops the last clone), never a Drop of the cloneable handle guarded by a count test
+    try:
+        sig0 = prog.adt_by_name("AutoDespawnSignal")
+        arc_payload = None
+        mm = re.match(r"alloc::sync::Arc<(.+)>$", sig0["variants"][0]["fields"][0]["ty"]) if len(sig0["variants"][0]["fields"]) == 1 else None
+        if mm:
+            arc_payload = mm.group(1)
+        handle_drop = [im for im in prog.impls if im.get("self_adt") == sig0["path"] and (im.get("trait") or "").endswith("ops::drop::Drop")]
+        payload_drop = [im for im in prog.impls if arc_payload and im.get("self_adt") == arc_payload and (im.get("trait") or "").endswith("ops::drop::Drop")]
+        ctx.check(bool(arc_payload) and bool(payload_drop) and not handle_drop, "C10.b", "AutoDespawnSignal:signal-sent-by-Arc-payload-drop", "%s:%d" % (sig0["file"], sig0["line"]),
+                  "the handle is Arc<%s>, the payload implements Drop, the handle itself does not" % arc_payload,
+                  "the despawn signal is not sent from the Drop of the Arc payload (handle Drop impls: %d, payload Drop impls: %d): a count test in the handle's Drop races when the last clones are dropped on different threads" % (len(handle_drop), len(payload_drop)))
+        uses_count = [lib.fkey(bd) for bd in prog.bodies if "ecs::auto_despawn" in bd.path for b, t, fr in bd.iter_calls()
+                      if fr and lib.tail(mir.fn_name(fr), 2) in ("Arc::strong_count", "Arc::weak_count", "Arc::get_mut", "Arc::try_unwrap", "Arc::into_inner")]
+        ctx.check(not uses_count, "C10.b", "auto_despawn:no-manual-refcount-inspection", "", "", "manual Arc count inspection in %s (racy 'last copy' detection)" % uses_count)
+    except (mir.AnchorLost, IndexError) as e:
+        ctx.fail("C10.b", "anchor-lost:AutoDespawnSignal", "", str(e))
     try:
         inner = prog.adt_by_name("AutoDespawnSignalInner")
         sig = prog.adt_by_name("AutoDespawnSignal")
